@@ -251,13 +251,19 @@ impl PendingSubscriptionSink {
 		if success {
 			let (tx, rx) = mpsc::channel(1);
 			self.subscribers.lock().insert(self.uniq_sub.clone(), (self.inner.clone(), rx));
+			let unsubscribe = IsUnsubscribed(tx);
+			let guard = SubscriptionGuard {
+				subscribers: self.subscribers,
+				uniq_sub: self.uniq_sub.clone(),
+				unsubscribe: unsubscribe.clone(),
+				_permit: self.permit,
+			};
 			Ok(SubscriptionSink {
 				inner: self.inner,
 				method: self.method,
-				subscribers: self.subscribers,
 				uniq_sub: self.uniq_sub,
-				unsubscribe: IsUnsubscribed(tx),
-				_permit: Arc::new(self.permit),
+				unsubscribe,
+				_guard: Arc::new(guard),
 			})
 		} else {
 			panic!(
@@ -299,14 +305,36 @@ pub struct SubscriptionSink {
 	inner: MethodSink,
 	/// MethodCallback.
 	method: &'static str,
-	/// Shared Mutex of subscriptions for this method.
-	subscribers: Subscribers,
 	/// Unique subscription.
 	uniq_sub: SubscriptionKey,
 	/// A future to that fires once the unsubscribe method has been called.
 	unsubscribe: IsUnsubscribed,
+	/// State shared by all clones of the sink, the subscription is closed when the last clone is dropped.
+	_guard: Arc<SubscriptionGuard>,
+}
+
+/// Subscription state that is shared by all clones of a [`SubscriptionSink`].
+///
+/// When the last clone of the sink is dropped the subscription is removed and
+/// the subscription permit is released.
+#[derive(Debug)]
+struct SubscriptionGuard {
+	/// Shared Mutex of subscriptions for this method.
+	subscribers: Subscribers,
+	/// Unique subscription.
+	uniq_sub: SubscriptionKey,
+	/// Whether the unsubscribe method has been called.
+	unsubscribe: IsUnsubscribed,
 	/// Subscription permit
-	_permit: Arc<SubscriptionPermit>,
+	_permit: SubscriptionPermit,
+}
+
+impl Drop for SubscriptionGuard {
+	fn drop(&mut self) {
+		if !self.unsubscribe.is_unsubscribed() {
+			self.subscribers.lock().remove(&self.uniq_sub);
+		}
+	}
 }
 
 impl SubscriptionSink {
@@ -408,14 +436,6 @@ impl SubscriptionSink {
 
 	fn is_active_subscription(&self) -> bool {
 		!self.unsubscribe.is_unsubscribed()
-	}
-}
-
-impl Drop for SubscriptionSink {
-	fn drop(&mut self) {
-		if self.is_active_subscription() {
-			self.subscribers.lock().remove(&self.uniq_sub);
-		}
 	}
 }
 
